@@ -41,7 +41,7 @@ class C06(Engine):
     property_id = "C06"
     level = "exploration"
     budgets = {
-        "quick": {"runs": 2600, "wall": 75, "min_runs": 150},
+        "quick": {"runs": 5000, "wall": 75, "min_runs": 150, "min_wall": 30},
         "thorough": {"runs": 120000, "wall": 1500, "min_runs": 400},
     }
     rule = (
@@ -101,6 +101,8 @@ class C06(Engine):
             "proc_freq": rng.choice((1e-4, 1e-4, 1e-3, 1e-5, 0.01)),
             "clock_seed": rng.randrange(1 << 30),
         }
+        total = sum(s_["payload"]["n"] for s_ in stages if "payload" in s_)
+        knobs["max_steps"] = 300_000 + 25 * total
         acc = list(ACCESSORS)
         rng.shuffle(acc)
         return {"seed": seed, "form": form, "stages": stages, "knobs": knobs, "access": acc[:3]}
@@ -191,7 +193,15 @@ class C06(Engine):
             src = f"sim_recv @$({cmdline})\n"
         V = []
         obs = {}
-        ctx.partial = {"summary": {"src": src.strip(), "len_P": len(P)}}
+        err_n = len(simproc.make_payload(last["err"])) if "err" in last else 0
+        ctx.partial = {
+            "summary": {"src": src.strip(), "len_P": len(P)},
+            "abort_sig": {
+                "form": form,
+                "last_kind": last["kind"],
+                "unthreadable_stderr_over_pipe": bool(last["kind"] in ("ualias", "uproc") and form == "!()" and err_n > case["knobs"]["pipe_cap"]),
+            },
+        }
         ctx.start()
         exc = None
         try:
@@ -242,12 +252,13 @@ class C06(Engine):
         elif form == "!()":
             raw_ok = obs.get("raw_out") == P
             if not raw_ok:
-                viol("raw_out.exact", _diff("raw_out", obs.get("raw_out"), P))
-            for key in ("out", "str"):
-                if key in obs and obs[key] not in one_line_variants(N):
-                    viol("out.text", _diff(f"!().{key}", obs[key], N), raw_ok=raw_ok, **_explain(obs[key], N, P))
-            if "iter" in obs and obs["iter"] != N:
-                viol("iter.join", _diff("''.join(iter(r))", obs["iter"], N), raw_ok=raw_ok, **_explain(obs["iter"], N, P))
+                viol("raw_out.exact", _diff("raw_out", obs.get("raw_out"), P), why=_raw_why(obs.get("raw_out"), P))
+            if _final_cls(stages) != "binary":  # text views of arbitrary binary data are not specified
+                for key in ("out", "str"):
+                    if key in obs and obs[key] not in one_line_variants(N):
+                        viol("out.text", _diff(f"!().{key}", obs[key], N), raw_ok=raw_ok, why=_text_why(obs[key], N, P) if raw_ok else "raw_wrong")
+                if "iter" in obs and obs["iter"] != N:
+                    viol("iter.join", _diff("''.join(iter(r))", obs["iter"], N), raw_ok=raw_ok, why=_text_why(obs["iter"], N, P) if raw_ok else "raw_wrong")
         elif form == "$()":
             acc = set()
             for base in (uninew(text), N):
@@ -285,16 +296,41 @@ class C06(Engine):
         res = ctx.base_result()
         nthreads = res["stats"]["threads"]
         res["violations"] = V
+        if V:
+            res["tty_err_tail"] = tty_e[-1500:].decode("utf-8", "replace")
         res["probes"]["size_over_pipe"] = int(len(P) > case["knobs"]["pipe_cap"])
         res["probes"]["boundary_1024"] = int(len(P) in (1023, 1024, 1025, 4095, 4096, 4097, 65535, 65536, 65537))
         res["probes"]["helper_threads_left_running"] = int(not quiet)
         res["probes"]["stage_died_by_signal"] = sum(1 for p in simproc.ALL if (p.status or 0) < 0)
+        res["faults"] = _fault_counts(case, stages)
         res["nontrivial"] = nthreads >= 2 and (ctx.k.preempts > 0 or res["probes"]["pipe_full_backpressure"] + res["probes"]["reader_blocked"] > 0)
         shape = (form, tuple((s["kind"], s["role"]) for s in stages), _final_cls(stages), _bucket(len(P)), case["access"][0])
         res["states"] = [hashlib.sha1(repr(shape).encode()).hexdigest()[:12]]
         res["key"] = hashlib.sha1((repr(shape) + res["digest"]).encode()).hexdigest()[:16]
         res["summary"] = {"src": src.strip(), "len_P": len(P), "rtn": obs.get("rtn"), "threads": nthreads, "decisions": ctx.k.d}
         return res
+
+
+def _fault_counts(case, stages):
+    f = {}
+
+    def inc(k, n=1):
+        if n:
+            f[k] = f.get(k, 0) + n
+
+    for st in stages:
+        inc("stage_exit_nonzero", int(st["rc"] > 0))
+        inc("stage_killed_by_signal", int(st["rc"] < 0))
+        inc("consumer_exits_early", int(st["role"] == "head"))
+        inc("consumer_ignores_stdin", int(st["role"] == "emit" and st["idx"] > 0))
+        for a in st.get("script", ()):
+            inc("writer_pause", int(a[0] == "sleep" and a[1] < 0.1))
+            inc("writer_stall", int(a[0] == "sleep" and a[1] >= 0.1))
+            inc("writer_closes_stdout_early", int(a[0] == "close"))
+    inc("small_pipe_capacity", int(case["knobs"]["pipe_cap"] < 65536))
+    inc("starved_thread_policy", int(case["knobs"]["policy"] == "starve"))
+    inc("pct_priority_policy", int(case["knobs"]["policy"] == "pct"))
+    return f
 
 
 def _final_cls(stages):
@@ -331,21 +367,47 @@ def _diff(what, got, want):
     )
 
 
-def _explain(got, N, P):
-    """Is the text difference explainable by per-chunk processing (chunk boundary splits)?"""
+def _raw_why(got, P):
+    if not isinstance(got, (bytes, bytearray)):
+        return "type"
+    if len(got) > len(P) and _is_dup(got, P):
+        return "dup_chunk"
+    if len(got) < len(P) and P.startswith(got):
+        return "lost_tail"
+    return "other"
+
+
+def _is_dup(got, P):
+    """got == P with one contiguous earlier segment repeated."""
+    n = min(len(got), len(P))
+    i = next((j for j in range(n) if got[j] != P[j]), n)
+    extra = len(got) - len(P)
+    # got = P[:i] + P[k:i] + P[i:]  for some k < i
+    return extra > 0 and got[i + extra :] == P[i:] and got[i : i + extra] == P[i - extra : i]
+
+
+def _text_why(got, N, P):
+    """Classify a wrong text view whose raw bytes were right (signature for known findings)."""
     if not isinstance(got, str):
-        return {"boundary_split": False}
+        return "type"
+    if got.endswith("\n") is False and N.endswith("\n") and got + "\n" == N:
+        return "dropped_final_newline"
+    if "\r" in got and uninew(got) == N:
+        return "lone_cr_kept"  # CR inside a line not normalised
+    if strip_esc(got) == N:
+        return "split_escape"  # escape sequence cut by a read boundary survived
+    if re.sub("\n+", "\n", uninew(got)) == re.sub("\n+", "\n", N) and got.count("\n") > N.count("\n"):
+        return "split_crlf"  # CR | LF cut by a read boundary became two newlines
     try:
-        same_bytes = got.encode("utf-8", "surrogateescape") == decode(P).encode("utf-8", "surrogateescape")
-    except Exception:
-        same_bytes = False
-    g2 = strip_esc(uninew(got))
-    canon = re.sub("\n+", "\n", g2) == re.sub("\n+", "\n", N)
-    try:
-        redec = strip_esc(uninew(got.encode("utf-8", "surrogateescape").decode("utf-8", "surrogateescape")))
-    except Exception:
-        redec = None
-    return {"boundary_split": bool(same_bytes or canon or redec == N or (redec is not None and re.sub("\n+", "\n", redec) == re.sub("\n+", "\n", N)))}
+        if got.encode("utf-8", "surrogateescape") == N.encode("utf-8", "surrogateescape"):
+            return "split_utf8"  # multi-byte character cut by a read boundary
+    except UnicodeError:
+        pass
+    if "\r" in got and re.sub("\n+", "\n", uninew(got)) == re.sub("\n+", "\n", N):
+        return "lone_cr_kept+split_crlf"
+    if strip_esc(uninew(got.encode("utf-8", "surrogateescape").decode("utf-8", "surrogateescape"))) == N:
+        return "split_mixed"
+    return "other"
 
 
 ENGINE = C06()
